@@ -89,6 +89,9 @@ class TreeGen:
                 return ("assign_raw", "f", r.choice(["{a} + 0", "{b} + 1", "{f} + 1", "{f} + {a}", "{c} * 2", "{f} * 2"]))
             if self.arrays and r.random() < 0.3:
                 self.kinds.add("array-write-at-secret-index")
+                if r.random() < 0.4:
+                    # a matrix: both indices secret, or a public row and a secret column
+                    return ("arr2_write", r.choice(vars_ + ["@0", "@1"]), r.choice(vars_), self.expr(vars_))
                 return ("arr_write", r.choice(vars_), self.expr(vars_))
             if self.shared and r.random() < 0.3:
                 self.kinds.add("shared-list")
@@ -226,6 +229,14 @@ def render(tree, api):
                 else:
                     emit(ind, "if %s != 0: %s = chk((%s * %s) // %s)" % (b, t1, a, b, b))
                     emit(ind, "if %s != 0: %s = chk((%s * %s) // %s + 1)" % (b, t2, a, b, b))
+            elif k == "arr2_write":
+                rhs = ex(st[3])
+                row_api = st[1][1:] if st[1].startswith("@") else "_.%s %% 2" % st[1]
+                row_twin = st[1][1:] if st[1].startswith("@") else "%s %% 2" % st[1]
+                if api:
+                    emit(ind, "_.arr2[%s, _.%s %% 2] = %s" % (row_api, st[2], ("ConstVal(%s)" % rhs) if rhs.lstrip("-").isdigit() else rhs))
+                else:
+                    emit(ind, "arr2[%s][%s %% 2] = chk(%s)" % (row_twin, st[2], rhs))
             elif k == "arr_write":
                 rhs = ex(st[2])
                 if api:
@@ -238,7 +249,12 @@ def render(tree, api):
                 _, tgt, c, (tv, fv) = st
                 if api:
                     lazy = zlib.crc32(repr((tgt, c, tv, fv)).encode()) % 3 == 0       # branches given as callables that return the lists
-                    emit(ind, "_.%s = if_then_else(%s, %s%s, %s%s)" % (tgt, ex(c), "lambda: " if lazy else "", ex(tv), "lambda: " if lazy else "", ex(fv)))
+                    style = zlib.crc32(repr((fv, tv, c)).encode()) % 3 if lazy else -1
+                    if style == 1:
+                        # lazily evaluated branches need not be lambdas: functools.partial objects, instances with __call__
+                        emit(ind, "_.%s = if_then_else(%s, functools.partial(lambda v: v, %s), _Call(%s))" % (tgt, ex(c), ex(tv), ex(fv)))
+                    else:
+                        emit(ind, "_.%s = if_then_else(%s, %s%s, %s%s)" % (tgt, ex(c), "lambda: " if lazy else "", ex(tv), "lambda: " if lazy else "", ex(fv)))
                 else:
                     emit(ind, "%s = list(%s) if (%s) else list(%s)" % (tgt, ex(tv), ex(c), ex(fv)))
             elif k == "if":
@@ -366,8 +382,8 @@ def worker(job):
             head_api += ["_.f = PrivValFxp(I[0] / 2.0)"]
             head_twin += ["f = I[0] / 2.0"]
         if tg.arrays:
-            head_api += ["_.arr = Array([_.a + 1, _.b + 2, ConstVal(9)])"]
-            head_twin += ["arr = [a + 1, b + 2, 9]"]
+            head_api += ["_.arr = Array([_.a + 1, _.b + 2, ConstVal(9)])", "_.arr2 = Array([Array([_.a + 0, ConstVal(1)]), Array([_.b + 0, _.c + 0])])"]
+            head_twin += ["arr = [a + 1, b + 2, 9]", "arr2 = [[a + 0, 1], [b + 0, c + 0]]"]
         if tg.shared:
             head_api += ["S = [_.a + 2, _.b + 3, ConstVal(5)]", "T = [_.c + 1, ConstVal(7), _.a + 0]"]
             head_twin += ["S = [a + 2, b + 3, 5]", "T = [c + 1, 7, a + 0]"]
